@@ -97,6 +97,7 @@ type Sim struct {
 	ForceScenario         int              // template number + 1 to run at the next scenario slot (0 = free choice)
 	RestartAfterCommit    bool             // scenario: restart the primary after the next commit
 	PreBeginCheck         []func() []byte  // scenario: transactions to CheckTx before the next BeginBlock
+	scn15Tried            bool
 	scnA, scnB            *appdrv.Key
 	QuietAll              bool // scenario: every proposal gets a quiet window around its applying height
 	VoteAll               bool // scenario: every validator votes on the latest proposal when its window opens
@@ -127,7 +128,7 @@ type Options struct {
 }
 
 // NumScenarios is the number of scenario templates (scenarios.go).
-const NumScenarios = 15
+const NumScenarios = 16
 
 func (s *Sim) add(r *Rec) *Rec { s.Recs = append(s.Recs, r); return r }
 
